@@ -78,6 +78,10 @@ pub struct NodeState {
 	pub page: u64,
 	pub call_log: Vec<String>,
 	pub log_calls: bool,
+	/// while set, node calls wait (a slow node); bounded
+	pub hold: bool,
+	/// number of calls that have started waiting on `hold`
+	pub waiting: u64,
 	pub posted: Vec<Transaction>,
 }
 
@@ -102,6 +106,14 @@ impl DirectNode {
 		self.chain.lock().as_ref().expect("chain open").clone()
 	}
 	fn gate(&self, what: &str) -> Result<(), libwallet::Error> {
+		let mut waited = 0;
+		while self.st.lock().hold && waited < 5000 {
+			if waited == 0 {
+				self.st.lock().waiting += 1;
+			}
+			std::thread::sleep(std::time::Duration::from_millis(1));
+			waited += 1;
+		}
 		let mut st = self.st.lock();
 		st.calls += 1;
 		if st.log_calls {
